@@ -98,6 +98,8 @@ type loopInfo struct {
 }
 
 type funcTrans struct {
+	retreqOK  map[int]int    // per retreq clause: number of return sites where it was evaluated
+	retreqErr map[int]string // last reason it was skipped
 	varargBefore map[ssa.Value]string // one-element varargs arrays: element heap symbol before the array was allocated
 	pureCache map[string]*Val // results of pure calls by (callee, arguments, heap versions)
 	w        *World
@@ -263,7 +265,11 @@ func (ft *funcTrans) run() (err error) {
 	if len(fn.Blocks) == 0 {
 		return fmt.Errorf("function has no body")
 	}
-	// pre-declare heap sorts of the universe so that "havoc everything" covers them
+	// pre-declare heap sorts of the universe so that "havoc everything" covers them; the ghost heaps of
+	// the spec are always part of it (a callee without an assigns clause may change them)
+	for name, srt := range w.P.Spec.Ghosts {
+		w.heapSorts["G_ghost."+name] = srt
+	}
 	w.declConstRaw("alloc@0", "Int")
 	ft.entry = &State{heaps: map[string]string{}, locals: map[string]string{}, alloc: q("alloc@0")}
 	w.addFact("(>= " + ft.entry.alloc + " 0)")
@@ -324,6 +330,13 @@ func (ft *funcTrans) run() (err error) {
 	order := ft.rpo()
 	for _, b := range order {
 		ft.block(b)
+	}
+	if ft.c != nil {
+		for i := range ft.c.RetReqs {
+			if ft.retreqOK[i] == 0 {
+				panic(unsupportedErr(fmt.Sprintf("retreq%d could not be evaluated at any return site (%s)", i+1, ft.retreqErr[i])))
+			}
+		}
 	}
 	return nil
 }
